@@ -432,6 +432,12 @@ impl Search {
 
             self.board.unmake_move();
 
+            // The child may have been cut short, in which case its score is meaningless
+            // and nothing computed from it may be stored
+            if !self.is_running() || self.limits_exceeded(start) {
+                return 0;
+            }
+
             // Move is too good, opponent will not allow the game to reach this position
             if score >= beta {
                 TRANSPOSITION_TABLE
